@@ -298,7 +298,7 @@ def run_entry(entry, n, seed, acc, tier):
 
 
 def shards(tier, seed):
-    return [{'entry': e, 'i': i, 'n': 250 if tier == 'thorough' else 30} for i, e in enumerate(genfaulty.entries())]
+    return [{'entry': e, 'i': i, 'n': 250 if tier == 'thorough' else 50} for i, e in enumerate(genfaulty.entries())]
 
 
 def run_shard(spec, seed, tier):
